@@ -51,6 +51,7 @@ func init() {
 		"github.com/fatih/color.Green": libPrint,
 	}
 	m["fmt.Sscanf"] = libSscanf
+	m["path/filepath.Dir"] = libDir
 	m["io.ReadFull"] = libReadFull
 	m["encoding/binary.Read"] = libBinaryRead
 	m["os.Getwd"] = libGetwd
@@ -189,7 +190,8 @@ func libOpen(g *FuncGen, c *ast.CallExpr, callee *types.Func, st *State) []Val {
 	res := g.libResults(callee, st)
 	f, err := res[0], res[1]
 	g.assume(st, fmt.Sprintf("(= (= %s 0) (not (isAbsent %s %s)))", err.T, fs, p.T))
-	g.assume(st, fmt.Sprintf("(=> (= %s 0) (and (= (fpath %s) %s) (= (rdContent %s) (content %s %s)) (= (rdTee %s) 0)))", err.T, f.T, p.T, f.T, fs, p.T, f.T))
+	// reading a directory yields nothing (every read fails): modelled as empty content
+	g.assume(st, fmt.Sprintf("(=> (= %s 0) (and (= (fpath %s) %s) (= (rdContent %s) (ite (isFile %s %s) (content %s %s) bempty)) (= (rdTee %s) 0)))", err.T, f.T, p.T, f.T, fs, p.T, fs, p.T, f.T))
 	g.assume(st, fmt.Sprintf("(=> (not (= %s 0)) (= %s 0))", err.T, f.T))
 	rp := g.ghostGet(st, "$rdpos")
 	g.ghostSet(st, "$rdpos", fmt.Sprintf("(store %s %s 0)", rp, f.T))
@@ -650,4 +652,9 @@ func libBinaryRead(g *FuncGen, c *ast.CallExpr, callee *types.Func, st *State) [
 	g.assume(st, fmt.Sprintf("(and (<= (select %s %s) %s) (<= %s (blen (rdContent %s))))", rp, r.T, np, np, r.T))
 	g.ghostSet(st, "$rdpos", fmt.Sprintf("(store %s %s %s)", rp, r.T, np))
 	return res
+}
+
+func libDir(g *FuncGen, c *ast.CallExpr, callee *types.Func, st *State) []Val {
+	p := g.ev(c.Args[0], st)
+	return []Val{{fmt.Sprintf("(pdir %s)", p.T), types.Typ[types.String], "Bytes"}}
 }
